@@ -89,9 +89,15 @@ class Tracer:
 
     # -- rounds
     def begin_round(self, i, desc):
-        r = {"desc": desc, "reads": [], "writes": [], "rcs": [], "complete": False}
+        if self.rounds[i] and "end" not in self.rounds[i][-1]:
+            self.rounds[i][-1]["end"] = len(self.sched)
+        r = {"desc": desc, "reads": [], "writes": [], "rcs": [], "complete": False, "begin": len(self.sched)}
         self.rounds[i].append(r)
         return r
+
+    def end_round(self, r):
+        r["complete"] = True
+        r["end"] = len(self.sched)
 
     def cur_round(self, i):
         if not self.rounds[i]:
@@ -445,7 +451,7 @@ async def scenario(spec, cancel_at):
                 raise
             except Exception as e:
                 results[i].append((n, (classify_exc(e, G),)))
-            r["complete"] = True
+            tr.end_round(r)
 
     async def reconnecter(offset):
         i = tr.register(asyncio.current_task())
@@ -460,7 +466,7 @@ async def scenario(spec, cancel_at):
             raise
         except Exception as e:
             results[i].append((0, (classify_exc(e, G),)))
-        r["complete"] = True
+        tr.end_round(r)
 
     callers_done = asyncio.Event()
 
@@ -469,7 +475,7 @@ async def scenario(spec, cancel_at):
         results[i] = []
         r = tr.begin_round(i, ("A", 0))
         await ecu.start_cyclic_tester_present(INTERVAL)
-        r["complete"] = True
+        tr.end_round(r)
         await callers_done.wait()
         await orig_sleep(0.5)
         w = tr.ids.get(ecu.tester_present_task, 0)
@@ -479,7 +485,7 @@ async def scenario(spec, cancel_at):
             tr.note_cancelled_waiter(w)
         await ecu.stop_cyclic_tester_present()
         tr.step(f"join{w}")
-        r["complete"] = True
+        tr.end_round(r)
 
     asyncio.sleep = traced_sleep
     asyncio.create_task = traced_create_task
@@ -610,7 +616,7 @@ def gen_specs(ctx):
                                 "cancelled at every await")
     # (4) 3..5 tasks sampled, two calls per task possible
     allk = OLD_KINDS + NEW_KINDS
-    for _ in range(ctx.pick(70, 700)):
+    for _ in range(ctx.pick(300, 1500)):
         n = rng.randint(3, 5)
         did[0] = 0x2000
         ts = []
@@ -643,7 +649,7 @@ def run(ctx):
     specs = gen_specs(ctx)
     cases = [(sp, None) for sp in specs]
     # cancellation at every instrumented await (lock acquire, write, read, backoff sleep, reconnect, the worker's interval sleep, start's sleep(0))
-    stride = ctx.pick(7, 2)
+    stride = ctx.pick(4, 1)
     cancel_specs = [sp for k, sp in enumerate(specs) if sp.get("cross") or k % stride == 0]
     for sp in cancel_specs:
         try:
@@ -698,6 +704,7 @@ def run(ctx):
                              f"caller {i} (request {r['reqs'][(i, n)].hex()}) was handed {rep}, which is {cls} to that request", case,
                              impl={"request": r["reqs"][(i, n)].hex(), "reply": rep, "sched": " ".join(r["sched"])[-1500:]}, model=cls,
                              spec_violated=(cls == "foreign"), site="UDSClient.request_unsafe / helpers.parse_pdu")
+        judge_serial(ctx, case, r)
         judge_multi(ctx, case, r, mo, tids)
     ctx.traces_validated += 2 * len(infos)
     if infos:
@@ -718,6 +725,34 @@ def judge_old(ctx, case, events, o):
     elif "holder=none" not in o or not o.endswith("waiters="):
         ctx.disagree("conc:lock-still-held-at-end", "after all tasks ended the client lock is still held or waited for: " + o, case,
                      impl=_fmt(events)[-600:], model=o, spec_violated=True, site="UDSClient._request / reconnect")
+
+
+def judge_serial(ctx, case, r):
+    """the property's first sentence, read off the wire alone: between the first transmission of a call and its end (reply,
+    error, or the cancellation of the caller) no other task transmits - whatever the lock events say"""
+    sched = r["sched"]
+    for i, rs in r["rounds"].items():
+        for n, rd in enumerate(rs):
+            if rd["desc"][0] not in ("R", "W"):
+                continue
+            b = rd["begin"]
+            e = rd.get("end", len(sched))
+            for j in range(b, e):  # the caller's cancellation ends the exchange
+                if sched[j] == f"x:{i}":
+                    e = j
+                    break
+            fw = next((j for j in range(b, e) if sched[j] == f"r:{i}:w"), None)
+            if fw is None:
+                continue
+            for j in range(fw + 1, e):
+                p = sched[j].split(":")
+                if p[0] == "r" and p[2] == "w" and int(p[1]) != i:
+                    ctx.disagree("conc:exchange-interleaved",
+                                 f"task {p[1]} transmitted while the exchange of task {i} (call {n}, {rd['desc'][:2]}) was still open "
+                                 f"(first transmission at step {fw}, end at step {e}): " + " ".join(sched[max(fw - 2, 0): j + 1])[-900:],
+                                 {**case, "sched": " ".join(sched)[:3000]}, impl=" ".join(sched[fw: j + 1])[-900:], spec_violated=True,
+                                 site="UDSClient._request / request_unsafe: the client is not held for the whole exchange")
+                    return
 
 
 def judge_multi(ctx, case, r, mo, tids):
